@@ -680,13 +680,58 @@ func tlvTree6(b []byte) []tlvNode6 {
 // fields of the option and of every option around it adjusted, so that the framing
 // stays consistent at every level and only that option's own layout rule can object
 // (seeded change C05-12: an NTP address sub-option accepting a 4-octet value).
-func genResized6(r *Rng) []byte {
+func genResized6(r *Rng) []byte { return genResized6x(r, false) }
+
+// genHeadCut6: genResized6 aimed at the options that begin with a fixed part and carry
+// sub-options behind it (IA_NA 12 octets, IA_TA 4, IA Address 24, IA_PD 12, IA Prefix
+// 25): the value is cut to 1..8 octets less than the fixed part - the address without
+// its lifetimes, the lifetimes cut in the middle -, its last four octets sometimes
+// reading as a well-formed empty option, all enclosing lengths consistent.
+// (seeded change C05-19: lifetimes read by a helper that returns zeros, without an
+// error, when fewer than eight octets are left.)
+func genHeadCut6(r *Rng) []byte { return genResized6x(r, true) }
+
+func genResized6x(r *Rng, headCut bool) []byte {
 	b := genMsg6(r, r.Range(0, 2), false).ToBytes()
+	if headCut {
+		// make sure there is something to cut
+		m := &dhcpv6.Message{MessageType: dhcpv6.MessageTypeReply}
+		copy(m.TransactionID[:], r.Bytes(3))
+		m.Options.Options = dhcpv6.Options{genOpt6(r, r.Pick([]int{3, 3, 4, 25}), 2, false), genOpt6(r, r.Pick([]int{3, 25, 1, 2}), 2, false)}
+		b = m.ToBytes()
+	}
 	nodes := tlvTree6(b)
 	if len(nodes) == 0 {
 		return b
 	}
 	n := nodes[r.Intn(len(nodes))]
+	heads := map[int]int{3: 12, 4: 4, 5: 24, 25: 12, 26: 25}
+	if headCut {
+		var cand []tlvNode6
+		for _, m := range nodes {
+			if h, ok := heads[m.code]; ok && m.valLen >= h {
+				cand = append(cand, m)
+			}
+		}
+		if len(cand) == 0 {
+			return b
+		}
+		n = cand[r.Intn(len(cand))]
+		if r.Chance(2, 3) {
+			// the innermost ones (addresses, prefixes) more often
+			for k := 0; k < 3; k++ {
+				if m := cand[r.Intn(len(cand))]; len(m.anc) > len(n.anc) {
+					n = m
+				}
+			}
+		}
+		nl := max(0, heads[n.code]-r.Range(1, 8))
+		nv := append([]byte{}, b[n.valOff:n.valOff+nl]...)
+		if nl >= 4 && r.Bool() {
+			copy(nv[nl-4:], [][]byte{{0, 0, 0, 0}, {0, 14, 0, 0}, {0, 13, 0, 0}, {0, 150, 0, 0}}[r.Intn(4)])
+		}
+		return spliceValue6(b, n, nv)
+	}
 	if r.Chance(1, 2) {
 		// prefer the innermost options
 		for k := 0; k < 4; k++ {
@@ -736,7 +781,13 @@ func genResized6(r *Rng) []byte {
 		}
 		nv = append(nv, ext...)
 	}
-	delta := nl - n.valLen
+	return spliceValue6(b, n, nv)
+}
+
+// spliceValue6 replaces the value of option n in b by nv and adjusts the length fields of
+// the option and of every option around it.
+func spliceValue6(b []byte, n tlvNode6, nv []byte) []byte {
+	delta := len(nv) - n.valLen
 	for _, o := range append(append([]int{}, n.anc...), n.lenOff) {
 		l := int(b[o])<<8 | int(b[o+1]) + delta
 		if l < 0 || l > 65535 {
@@ -962,6 +1013,9 @@ func genLongDUID6(r *Rng) []byte {
 func genWire6(r *Rng) ([]byte, string) {
 	if r.Chance(1, 60) {
 		return genLongDUID6(r), "long-duid"
+	}
+	if r.Chance(1, 25) {
+		return genHeadCut6(r), "fixed-part-cut"
 	}
 	if r.Chance(1, 14) {
 		return genNameWire6(r), "name-wire-in-option"
